@@ -105,6 +105,9 @@ def mc_task(logic, n, ftxts, opts=None):
     opts = dict(opts or {})
     fold = opts.get('fold', True)
     fixed = opts.get('fixed') or {}
+    if opts.get('edge_then_call'):
+        fixed = dict(fixed)
+        fixed['t_%d_%d' % tuple(opts['edge_then_call'])] = False       # add_edge's precondition: the edge is not there yet
     perm = opts.get('perm')
     aps = tuple(opts.get('aps', ('p', 'q')))
     audit = opts.get('audit', True)
@@ -215,7 +218,7 @@ def mc_task(logic, n, ftxts, opts=None):
             if extra_pairs:
                 excg = exc_guard(h.fr)
                 mut = mutated(h.K, snap)
-            resv_edit = None
+            resv_edit = resv_edge = None
             if opts.get('edit_then_call') and nfair is None:
                 # the CALLER edits its structure in place (adds atom p to the last state) and asks again: the answer must be the
                 # answer for the edited structure (a memo that outlives the call and is keyed by the object would be stale)
@@ -226,6 +229,14 @@ def mc_task(logic, n, ftxts, opts=None):
                 res_e = h.ctx.call(mcmod.modelcheck, [h.K, f], kw)
                 resv_edit = vec(res_e, st)
                 excg = exc_guard(h.fr)
+                if opts.get('edge_then_call'):
+                    # ... then adds a transition through the structure's own API and asks once more (anything derived from the
+                    # transition relation and kept inside K or its class - SCCs, a reversed graph - would be stale now)
+                    ea, eb = opts['edge_then_call']
+                    h.ctx.call(h.ctx.getattr1(h.K, 'add_edge'), [st[ea], st[eb]], {})
+                    res_g = h.ctx.call(mcmod.modelcheck, [h.K, f], kw)
+                    resv_edge = vec(res_g, st)
+                    excg = exc_guard(h.fr)
             unw = unwind_guard(h.vm)
             t1 = time.time()
             rec.update(encode_s=round(t1 - t0, 2), exc=kinds, loops={('%s:%d' % k): v for k, v in h.vm.stats['loops'].items()},
@@ -301,6 +312,16 @@ def mc_task(logic, n, ftxts, opts=None):
                 rec['after_edit'] = d.differ(resv_edit, want_e)
                 if rec['after_edit'] == 'sat':
                     rec['after_edit_model'] = d.differ_model(resv_edit, want_e)
+                if resv_edge is not None:
+                    ea, eb = opts['edge_then_call']
+                    T3 = [list(row) for row in T2]
+                    T3[ea][eb] = True
+                    want_g = oracles.ctl(f, T3, lab3, n) if (logic == 'CTL' and not opts.get('ctls_oracle')) else \
+                        oracles.ctls(f, T3, lab3, n, depths=oracles.Depths('fixed', inner=(depths.max_inner if depths else n * 8) + 4, outer=(depths.max_outer if depths else n * 8) + 4))
+                    rec['edge'] = [ea, eb]
+                    rec['after_edge'] = d.differ(resv_edge, want_g)
+                    if rec['after_edge'] == 'sat':
+                        rec['after_edge_model'] = d.differ_model(resv_edge, want_g)
             for nm_, v2 in extra_pairs.items():
                 rec[nm_] = d.differ(resv, v2)              # implementation vs implementation
                 if rec[nm_] == 'sat':
